@@ -120,3 +120,16 @@ class RunActors:
         one_waiter_per_actor="len(created_tasks) == 2",
         returns_only_when_all_finished="all(t.done() for t in created_tasks)",
     )
+
+
+@contract(f"{ACT}:Actor._delay_if_restart")
+class DelayIfRestart:
+    """Every restart (iteration > 0) is preceded by exactly one sleep of THIS actor's restart delay (a subclass may
+    configure its own RESTART_DELAY); the first run is not delayed."""
+    self_shape = ActorT
+    shapes = dict(iteration=Int)
+    ghost_init = ["sleeps = []"]      # the delays handed to asyncio.sleep, in order (recorded by the sleep model)
+    ensures = dict(
+        first_run_not_delayed="implies(iteration <= 0, len(sleeps) == 0)",
+        restart_delayed_by_own_delay="implies(iteration > 0, len(sleeps) == 1 and sleeps[0] == self.RESTART_DELAY.total_seconds())",
+    )
